@@ -8,6 +8,16 @@ type unitSpec struct {
 	Module string            // Coq module (file) name: <Module>.v
 	Funcs  []string          // nil: every function of the file; else: only these (the rest is reported as not_selected)
 	Skip   map[string]string // function name -> reason (explicit skips)
+	// Abstract: struct field name -> the wrapped container is an ABSTRACT INTERFACE (a record of functions,
+	// parameter of the generated definitions).  Pure lists its read-only methods; every other method is
+	// translated as a mutator `state -> args -> state * result`.
+	Abstract map[string]absSpec
+	// IgnoreFields: struct fields left out of the record (reading or writing them is refused), with the reason
+	IgnoreFields map[string]string
+}
+
+type absSpec struct {
+	Pure []string
 }
 
 var whitelist = []unitSpec{
@@ -22,4 +32,22 @@ var whitelist = []unitSpec{
 	{GoFile: "stacks/arraystack/iterator.go", Module: "ArrayStackIterGen"},
 	{GoFile: "queues/arrayqueue/arrayqueue.go", Module: "ArrayQueueGen", Funcs: []string{"Size", "withinRange"}},
 	{GoFile: "queues/arrayqueue/iterator.go", Module: "ArrayQueueIterGen"},
+
+	// thin wrappers: every method except String / the constructors; the wrapped container is an abstract interface
+	{GoFile: "stacks/arraystack/arraystack.go", Module: "ArrayStackWrapGen", Skip: wrapSkip, Abstract: listAbs},
+	{GoFile: "queues/arrayqueue/arrayqueue.go", Module: "ArrayQueueWrapGen", Skip: wrapSkip, Abstract: listAbs},
+	{GoFile: "stacks/linkedliststack/linkedliststack.go", Module: "LinkedListStackWrapGen", Skip: wrapSkip, Abstract: listAbs},
+	{GoFile: "queues/linkedlistqueue/linkedlistqueue.go", Module: "LinkedListQueueWrapGen", Skip: wrapSkip, Abstract: listAbs},
+	{GoFile: "queues/priorityqueue/priorityqueue.go", Module: "PriorityQueueWrapGen",
+		Skip:         map[string]string{"String": skipFmt, "New": skipCtor, "NewWith": skipCtor},
+		Abstract:     map[string]absSpec{"heap": {Pure: []string{"Peek", "Empty", "Size", "Values"}}},
+		IgnoreFields: map[string]string{"Comparator": "comparator function value, only handed to the heap's constructor"}},
 }
+
+const skipFmt = "uses fmt / strings (text formatting is not modelled)"
+const skipCtor = "constructor: only calls the wrapped container's package-level constructor (the initial state is the model's init)"
+
+var wrapSkip = map[string]string{"String": skipFmt, "New": skipCtor}
+
+// read-only methods of the list packages (arraylist, singlylinkedlist); backed by the effect table (C16)
+var listAbs = map[string]absSpec{"list": {Pure: []string{"Get", "Size", "Empty", "Values", "Contains", "IndexOf"}}}
